@@ -25,7 +25,8 @@ HARNESSES = [
              "dequeue": "stub_pool_dequeue", "get_status": "stub_pool_get_status",
              "*": "stub_unreachable_destroy"},
          malloc_fail=True, unwind=9, nochecks=["--conversion-check"],
-         must_have=["C17.bp.nosparse_tail"],
+         must_have=["C17.bp.nosparse_tail", "C17.bp.nosparse_tail.worker", "C17.bp.nosparse_tail.located",
+                    "C17.bp.nosparse_tail.written", "C17.bp.nosparse_tail.inode_untouched"],
          cases=[dict(id="fb%d_m%d" % (fb, m), defines={"HAVE_FB": fb, "MERGE2": m, "BS": 4096}, tier="quick")
                 for fb in (0, 1) for m in (0, 1)]),
 ]
